@@ -38,6 +38,19 @@ def gen_cases(ck):
     return cases
 
 
+def d2_explains(sc, ph, coef_tol):
+    """the known finding D2 explains an error only if every coefficient that is not mirrored is the true tangent"""
+    for (j, rg), (cx, cy) in ph.coefs.items():
+        if (j, rg) in ph.d2 or rg is None:
+            continue
+        col = ph.ridges.index(rg)
+        a_, b_ = tuple(rg)
+        t_ = statics.true_direction(sc, j, b_ if a_ == j else a_, len(ph.used[col]))
+        if max(abs(cx - t_.real), abs(cy - t_.imag)) > 2 * coef_tol:
+            return False
+    return True
+
+
 def run_case(ck, case, reqs, pending):
     np.seterr(all="raise")
     rng = np.random.default_rng(case["seed"] + 41)
@@ -126,7 +139,7 @@ def run_case(ck, case, reqs, pending):
     if err > tol:
         ck.fail("velocity-based inference at the frame returns the tensions that generated the motion, within the tolerance implied by the rounding",
                 f"{where} frame of {nfr}: max error {err:.3g} (tolerance {tol:.3g}, sigma_min {sv[-1]:.3g}, {len(ph.d2)} mirrored coefficients)", case,
-                signature=SIG_D2 if ph.d2 else None)
+                signature=SIG_D2 if (ph.d2 and d2_explains(sc, ph, coef_tol)) else None)
     rec = getattr(fm, "_verif", None)
     if rec is not None and rec["path"] in ("nnls-fallback", "inv"):
         eps = 1e-9 * (1.0 + float(np.max(np.abs(rec["b"])))) * rec["mprime"].shape[0]
